@@ -10,6 +10,7 @@ _Bool nondet_bool_(void);
 Token TK; Obj PR;
 Token *tokenize_file(char *path) { at_tokenize = ev++; ASSUME(nondet_bool_()); return &TK; }
 Token *preprocess(Token *tok) { at_preprocess = ev++; ASSUME(nondet_bool_()); return &TK; }
+void join_adjacent_string_literals(Token *tok) { }   /* preprocess.c; a stage-internal step of the front end */
 Obj *parse(Token *tok) { at_parse = ev++; ASSUME(nondet_bool_()); return &PR; }
 void codegen(Obj *prog, FILE *out) { g_codegen_target = out; ASSUME(nondet_bool_()); at_codegen_ret = ev++; }
 FILE *open_memstream(char **ptr, size_t *sizeloc) { static char b[4]; *ptr = b; *sizeloc = 0; return g_membuf; }
